@@ -59,7 +59,7 @@ PROPS = {
         ],
     },
     'C11': {
-        'v_units': ['trap', 'trapsrun', 'cmdlist'],
+        'v_units': ['trap', 'trapsrun', 'cmdlist', 'waitcore'],
         'k_units': [],
         'level': 'proof',
         'explanation': (
@@ -89,7 +89,8 @@ PROPS = {
             'Not decided: take_caught_signal (iter_mut().find_map with a closure that returns a borrow; its per-record step '
             'handle_if_caught is proved), and WHEN traps run (command boundary, interrupted wait): that is scheduling of the '
             'async read-eval loop.'
-            " Unit cmdlist (Verus, yash-semantics/src/command.rs): Command::execute runs exactly the one command it is (simple, compound or function definition), once, then exactly one trap round (run_traps_for_caught_signals), then refreshes the job statuses - nothing else - and answers the command's result unless only the traps diverted, the more severe divert if both did; List::execute runs its items in order, each exactly once, up to and including the first that diverts, hands that divert on unchanged and runs nothing after it (every item when none diverts)."),
+            " Unit cmdlist (Verus, yash-semantics/src/command.rs): Command::execute runs exactly the one command it is (simple, compound or function definition), once, then exactly one trap round (run_traps_for_caught_signals), then refreshes the job statuses - nothing else - and answers the command's result unless only the traps diverted, the more severe divert if both did; List::execute runs its items in order, each exactly once, up to and including the first that diverts, hands that divert on unchanged and runs nothing after it (every item when none diverts)."
+            " Unit waitcore (Verus, yash-builtin/src/wait/core.rs wait_for_any_job_or_trap): the internal SIGCHLD disposition is asked for before the first wait() and without it nothing is waited for; a status reported by wait() is forwarded to the job table unchanged and ends the step; while waiting, every signal the system reports is offered to the trap runner exactly once, in the order reported, and the first one whose trap ran ends the waiting with exactly that signal and the trap's result (nothing happens after it); a SIGINT with its default action ends the waiting right after the sleep that reported it."),
         'trusted_base': ['Verus 0.2026.09.13 + Z3', 'vstd model of map entries (hash_map::Entry, used in place of btree_map::Entry)',
                          '/verif/tools/vextract.py'],
         'assumptions': [
@@ -102,6 +103,7 @@ PROPS = {
             'source::Location is an opaque placeholder type; thiserror\'s #[from] expansion is written out by hand',
             'unit trapsrun: take_caught_signal, run_trap (lexer + read-eval loop), poll_signals, sigint_has_default_action and in_trap are opaque calls observed by a ghost monitor; the table invariant "a command action has origin User" is assumed there (it is what set_action / enter_subshell of unit trap establish); await points dropped; termination not claimed',
             'unit cmdlist: executing a simple command / compound command / function definition / item, run_traps_for_caught_signals and update_all_subshell_statuses are opaque calls appending to an event log; Ord::max on Divert is a helper over an uninterpreted order; `Box::pin(async move { .. }).await` is checked as the block itself; `for item in &self.0` is a while loop over the index; await points dropped',
+            "unit waitcore: enabling the SIGCHLD disposition, the system's wait(), wait_for_signals, JobList::update_status and the trap runner taken from env.any are opaque calls appending to an event log; `for signal in signals.iter().cloned()` takes the first element off a copy of the list on every round; Errno::ECHILD is a model constant; the #[from] conversion of thiserror is written out; await points dropped; termination not claimed",
         ],
     },
     'C08': {
@@ -515,7 +517,7 @@ PROPS = {
         ],
     },
     'C13': {
-        'v_units': ['waitsub', 'pipelinerun', 'startwait', 'cmdsubst', 'subshellstart', 'asynclist', 'jobstatus'],
+        'v_units': ['waitsub', 'pipelinerun', 'startwait', 'cmdsubst', 'subshellstart', 'asynclist', 'jobstatus', 'waitcore'],
         'k_units': ['waitstatus'],
         'level': 'other',
         'explanation': (
@@ -542,7 +544,8 @@ PROPS = {
             ' Unit cmdsubst (Verus, yash-semantics/src/expansion/initial/command_subst.rs subshell_body + expand_common) over a model of the descriptor table: in the child, when the command text is run (at most once) its standard output IS the writing end of the pipe and the child holds no other descriptor of either end, nothing else changed (a failing dup2 is reported once and the text does not run); in the parent, whatever happens, afterwards neither end of the pipe is held and nothing else changed - also when the child could not be started, in which case nothing is read and nobody awaited; otherwise the output is read exactly once, from the reading end, at a moment when the parent holds NO descriptor of the writing end (so that end-of-file can come); then the child is awaited until a halt that is not a mere stop, every halt awaited being one of that child, and the status recorded for the substitution is the status that last halt stands for. NOT under contract: the tail of expand_common (UTF-8 decoding, removal of the trailing newlines, conversion to attributed characters), which is one opaque helper call here.'
             " Unit subshellstart (Verus, yash-env/src/subshell/config.rs Config::start - the common start-up code of every subshell kind): the job control granted is what the configuration asks for if the shell controls jobs at all; in the PARENT nothing but one fork happens, bracketed - iff the child is to ignore SIGINT / SIGQUIT, i.e. the configuration says so and the child is not job-controlled - by blocking the two signals and restoring exactly the saved mask on EVERY path after a successful block, including a failed fork (the parent's signal mask, stack and options are as before); the CHILD body, checked on a copy of the parent's environment (what fork gives it), does only process-group business (setpgid / tcsetpgrp, and only under job control), then disowns the jobs, calls TrapSet::enter_subshell exactly once with (ignore = asked for and not job-controlled, keep stopper dispositions = not job-controlled) BEFORE the task, runs the task exactly once in a Subshell frame on top of the parent's stack, with the parent's options unchanged and the job control granted, and then exits - it never returns into the parent's code."
             " Unit asynclist (Verus, yash-semantics/src/command/item.rs Item::execute, execute_async, async_body, nullify_stdin): a synchronous item is exactly its and-or list, run in this shell, once; for `cmd &` exactly one child is started for exactly this and-or list, with background job control asked for and SIGINT / SIGQUIT ignored in it, the list does not run in this shell and the child is not awaited; if it was started, one job with its process ID enters the job table (owned, running, not yet reported; job-controlled iff job control was granted), `$!` becomes that process ID and `$?` is 0; if not, no job, `$!` untouched, an interrupt with status 126. In the child the list runs exactly once, its result is applied and the EXIT trap runs once, in this order; under job control standard input is left alone; nullify_stdin makes standard input /dev/null and changes nothing else (its assert_eq! is discharged from POSIX's lowest-free-descriptor rule)."
-            ' Unit jobstatus (Verus, yash-env/src/job.rs handle_job_status and the two conversions it uses, From<ProcessResult> for ExitStatus / ProcessState): the status handed on for a synchronously awaited child is the status its result stands for (its own when it exited, the one standing for the signal when it was killed or stopped); a child that was STOPPED - and no other - enters the job table as a job-controlled, owned job with exactly its process ID and the halted state; the shell is interrupted (with that status) exactly when it is interactive and the child was stopped, or was killed by SIGINT while SIGINT has its default action.'),
+            ' Unit jobstatus (Verus, yash-env/src/job.rs handle_job_status and the two conversions it uses, From<ProcessResult> for ExitStatus / ProcessState): the status handed on for a synchronously awaited child is the status its result stands for (its own when it exited, the one standing for the signal when it was killed or stopped); a child that was STOPPED - and no other - enters the job table as a job-controlled, owned job with exactly its process ID and the halted state; the shell is interrupted (with that status) exactly when it is interactive and the child was stopped, or was killed by SIGINT while SIGINT has its default action.'
+            " Unit waitcore (Verus, yash-builtin/src/wait/core.rs wait_for_any_job_or_trap): the internal SIGCHLD disposition is asked for before the first wait() and without it nothing is waited for; a status reported by wait() is forwarded to the job table unchanged and ends the step; while waiting, every signal the system reports is offered to the trap runner exactly once, in the order reported, and the first one whose trap ran ends the waiting with exactly that signal and the trap's result (nothing happens after it); a SIGINT with its default action ends the waiting right after the sleep that reported it."),
         'trusted_base': ['Verus 0.2026.09.13 + Z3', 'Kani 0.68.0 + CBMC 6.11', '/verif/tools/vextract.py, /verif/tools/kunit.py'],
         'assumptions': [
             'unit waitsub: enabling the SIGCHLD disposition, System::wait, JobList::update_status and wait_for_signal are opaque calls that update a ghost monitor in the reduced Env (rewrite rule tokens-to-helper for the three field-method calls); From<signal::Number> for ExitStatus (number + 0x180) is uninterpreted; the spec functions of the From / TryFrom spec traits of vstd are declared by hand and the real bodies are proved to obey them; await points dropped; termination not claimed; WHEN children change state is not modelled',
@@ -554,6 +557,7 @@ PROPS = {
             "unit subshellstart: the closure handed to Env::run_in_child_process is checked INLINE as a block working on verif_child_copy(env) (assumed: fork gives the child a copy of Env) and the fork is an opaque call that is told the child's event log, so the textual order parent-before / child / parent-after is not an execution order; push_frame's guard is taken to live until the child exits; bool::then_some + Option::flatten through a helper with the std meaning; the system calls (block_sigint_sigquit, restore_sigmask, setpgid, getpgrp, tcsetpgrp_with_block), get_tty, enter_subshell, disown_all, the task, exit_or_raise, OptionSet::set / get are opaque calls appending to an event log; the AsyncFnOnce bound is dropped from the signature; the nested `const ME` is lifted to module level; precondition: SIGINT / SIGQUIT are not already blocked by this mechanism; await points dropped",
             'unit asynclist: Config::new is the derived Default (assumed: no job control, nothing ignored); config.start(..) with its async closure is an opaque call recording the configuration and the and-or list (unit subshellstart has the real start); JobList::insert / set_last_async_pid, AndOrList::execute / to_string, apply_result, run_exit_trap, print_error, is_interactive opaque; the descriptor table is a model trait (close; open answers the lowest free descriptor); the C-string literal is a helper call (Verus has none); that standard input IS /dev/null without job control is proved for nullify_stdin but only stated for the job-control case in async_body (a failing nullify is ignored by the code); await points dropped',
             'unit jobstatus: JobList::insert is an opaque call logging the job (unit joblist has the real one); is_interactive / sigint_has_default_action are ghost-backed; From<signal::Number> for ExitStatus uninterpreted; the job-name closure is an FnOnce value whose call has no precondition (a requires of the function)',
+            "unit waitcore: enabling the SIGCHLD disposition, the system's wait(), wait_for_signals, JobList::update_status and the trap runner taken from env.any are opaque calls appending to an event log; `for signal in signals.iter().cloned()` takes the first element off a copy of the list on every round; Errno::ECHILD is a model constant; the #[from] conversion of thiserror is written out; await points dropped; termination not claimed",
         ],
     },
     'C17': {
